@@ -1858,7 +1858,7 @@ class Pipeline:
 
         if inputs is not None:
             new_root_args = set(pipeline.topological_generations.root_args)
-            if not new_root_args.issubset(inputs):
+            if not (new_root_args - set(pipeline.defaults)).issubset(inputs):
                 outputs = {f.output_name for f in pipeline.functions}
                 msg = (
                     f"Cannot construct a partial pipeline with `{outputs=}`"
